@@ -193,7 +193,7 @@ struct Stats
 };
 
 Stats gStats;
-std::string gPart, gReplayDir, gMode = "rc";
+std::string gPart, gReplayDir, gMode = "rc", gName;
 long gSeed = 1, gCases = 1000, gSize = 200, gBound = 3, gCaseTimeout = 120;
 int gCurFd = -1;
 std::vector<uint32_t> gLastFailTape;
@@ -288,7 +288,7 @@ std::string writeReplay(const std::vector<uint32_t> &tape, const Case &c, const 
     mkdir(gReplayDir.c_str(), 0777);
     uint64_t h = hashStr(tapeToString(tape) + c.sig);
     char name[64];
-    snprintf(name, sizeof name, "/%s-%016llx.tape", property.id, static_cast<unsigned long long>(h));
+    snprintf(name, sizeof name, "/%s-%016llx.tape", gName.empty() ? property.id : gName.c_str(), static_cast<unsigned long long>(h));
     std::string path = gReplayDir + name;
     std::ofstream out(path);
     out << "# property " << property.id << "\n# driver " << driver << " seed " << gSeed << "\n# sig " << c.sig << "\n";
@@ -448,6 +448,8 @@ int main(int argc, char **argv)
             gBound = atol(next().c_str());
         } else if (a == "--part") {
             gPart = next();
+        } else if (a == "--name") {
+            gName = next();
         } else if (a == "--replays") {
             gReplayDir = next();
         } else if (a == "--case-timeout") {
